@@ -145,9 +145,7 @@ def replay_file(path: str, quiet: bool = False) -> dict:
         rp = json.load(f)
     prop = rp["property"]
     drv = load_driver(prop)
-    known = core.Known([] if rp.get("ignore_known") else load_known(), prop)
-    if rp.get("no_known"):
-        known = core.Known([], prop)
+    known = core.Known([] if os.environ.get("VERIF_NO_KNOWN") == "1" else load_known(), prop)
     collect = core.Collect()
     scratch = scratch_root()
     try:
@@ -168,9 +166,11 @@ def same_failure(res: dict, expected: dict) -> bool:
     return res["fail"]["sig"] == expected["sig"]
 
 
-def run_replay_child(path: str, timeout: float = 600) -> dict:
+def run_replay_child(path: str, timeout: float = 600, no_known: bool = False) -> dict:
     """Replay in a fresh interpreter; returns the result dict."""
     env = child_env()
+    if no_known:
+        env["VERIF_NO_KNOWN"] = "1"
     try:
         p = subprocess.run(
             [VENV_PY, os.path.join(VERIF, "run_check.py"), "_", "--replay-json", path],
@@ -188,7 +188,8 @@ def child_env() -> dict:
     env = dict(os.environ)
     env.update(
         PYTHONHASHSEED=env.get("VERIF_HASHSEED", "0"),
-        PYTHONPATH="/repo/src" + os.pathsep + VERIF,
+        # VERIF_REPO_SRC: used only by the self-tests to point a check at a scratch (mutated) copy
+        PYTHONPATH=env.get("VERIF_REPO_SRC", "/repo/src") + os.pathsep + VERIF,
         PYTHONDONTWRITEBYTECODE="1",
         OMP_NUM_THREADS="1", OPENBLAS_NUM_THREADS="1", MKL_NUM_THREADS="1",
         TF_NUM_INTRAOP_THREADS="1", TF_NUM_INTEROP_THREADS="1",
